@@ -21,19 +21,19 @@ CHECKS = {
         level="exploration", ref="DESIGN.md §4 C01",
         technique="deterministic simulation: seeded read_plan histories on a simulated disk with read faults, consumer/allocator schedules; array reference model; ddmin replay",
         text="Seeded search over (depth, split, gulp, start, nsamps, skipback) plan histories with simulated consumers, allocators and read faults (short read, EIO, None, truncation underneath); every yielded block is compared with an array model of the stream. Sampling, not enumeration: a clean batch is evidence, not proof.",
-        note="Trusted: the harness' own SIGPROC encoder/bit packer and the array model; header parsing runs real and fault-free; files <= 256 samples, <= 3 files, <= 16 channels.",
+        note="Trusted: the harness' own SIGPROC encoder/bit packer and the array model; header parsing runs real and fault-free; files <= 256 samples, <= 3 files, <= 16 channels, plus a few per cent of 3000x1024-sample sets and of multi-gigabyte sparse sets (short plans around 2^31 / 2^32 bytes); plans may outlive their reader; library tuning constants lowered in a quarter of the runs.",
     ),
     "C02": dict(
         level="exploration", ref="DESIGN.md §4 C02",
         technique="deterministic simulation: seeded seek/read histories vs a byte-array + position model, with injected short reads/EIO; ddmin replay",
         text="Seeded histories of absolute/relative seeks, counted reads, buffer reads and read_block on 1-3 file streams, arguments biased to every file boundary; after every operation returned bytes and reported position are compared with a plain byte-array model; fault runs assert exact-or-raises and re-synchronisation by an absolute seek.",
-        note="Trusted: harness file encoder and byte model. Offsets aligned to the item size at 16/32 bit. Streams <= 192 samples.",
+        note="Trusted: harness file encoder and byte model. Offsets aligned to the item size at 16/32 bit. Streams <= 192 samples, plus 3 % multi-gigabyte sparse streams (2-3 files of 0.5-4 GiB, data in windows around boundaries, 2^31, 2^32; functional byte model).",
     ),
     "C04": dict(
         level="exploration", ref="DESIGN.md §4 C04",
         technique="deterministic simulation: seeded put/get histories (write chunking, dtype x depth, close-or-drop, restart = reopen by path, ENOSPC) vs a put/get array model with file-size conservation after every write; ddmin replay",
         text="Seeded write histories through prep_outfile/cwrite at all six depths with in-memory dtypes independent of the depth, and through to_file/to_tim/to_dat/to_spec/to_fft; after every write the file must grow by exactly the declared width (or the call raised and it did not grow); after dropping all objects the product is re-opened with the matching reader and compared bit-for-bit, with inferred count and tsamp/tstart/dm.",
-        note="Trusted: harness value generator and model. to_fft/to_dat/make_inf write by path (real, fault-free, outside the seam). ENOSPC ends a history.",
+        note="Trusted: harness value generator and model. to_fft/to_dat/make_inf write by path (real, fault-free, outside the seam). ENOSPC ends a history. Library tuning constants (ALL-CAPS ints >= 4096, also as default arguments) are lowered to a few hundred in a quarter of the runs so that size-threshold paths execute.",
     ),
     "C06": dict(
         level="exploration", ref="DESIGN.md §4 C06",
@@ -51,13 +51,13 @@ CHECKS = {
         level="exploration", ref="DESIGN.md §4 C10",
         technique="deterministic simulation of stream delivery: seeded chunk partitions, two-accumulator splits and merge orders of ChannelStats vs a two-pass float64 reference model; ddmin replay (no I/O fault applies)",
         text="Seeded histories push one stream into ChannelStats whole, in a generated partition, and split between two accumulators merged in either order; count/min/max must be identical and exact, mean/var/skew/kurtosis within calibrated tolerances of the two-pass float64 values, constant channels exactly zero variance/skew, nothing non-finite.",
-        note="Tolerances are ~20x the worst error observed on the unchanged tree over 8e4 calibration scenarios (recorded in evidence assumptions). n <= 400 (2000 thorough), <= 6 channels. Kernels compiled, 1 thread.",
+        note="Tolerances are ~20x the worst error observed on the unchanged tree over 8e4 calibration scenarios (recorded in evidence assumptions). n <= 400 (2000 thorough), <= 6 channels, plus rare streams up to 2^24 samples; merge trees over 3-8 accumulators in any bracketing, optionally with a never-pushed one. Kernels compiled, 1 thread.",
     ),
     "C11": dict(
         level="exploration", ref="DESIGN.md §4 C11",
         technique="deterministic simulation: seeded streaming folds under two chunkings on a simulated disk with read faults, kernel hit counts observed through a harness spy, vs a per-sample cell reference model; ddmin replay",
         text="Seeded fold geometries (period/tsamp, accel, nbins, nints, nbands incl. non-dividing), DMs and two gulps per scenario on Filterbank.fold, plus TimeSeries.fold; every cell's hit count and mean is compared with a per-sample model of (sub-integration, sub-band, phase bin), totals with (nsamps-maxdelay)*nchans, the two gulps bitwise with each other, and a synthetic periodic train must occupy one bin. Kernel calls are domain-guarded so a mis-addressed block is reported, not executed.",
-        note="Margin rule: scenarios whose phase is within 1e-4 bin of an edge (or whose integer indices hinge on float rounding) are rejected, so evaluation order cannot decide a verdict. Full-range folds only. Delays from the library (C09).",
+        note="Margin rule: scenarios whose phase is within 1e-4 bin of an edge (or whose integer indices hinge on float rounding) are rejected, so evaluation order cannot decide a verdict. Full-range folds only. Delays from the library (C09). 0.3 % of runs fold 1.2-1.7e7 samples (TimeSeries.fold, exact 0/1 data, period 0-3 float32 ulps from a whole number of samples); there, samples within the margin only widen the admissible interval of two cells.",
     ),
     "C16": dict(
         level="exploration", ref="DESIGN.md §4 C16",
@@ -80,13 +80,13 @@ CHECKS = {
     "C19": dict(
         level="exploration", ref="DESIGN.md §3.5, §4 C19",
         technique="deterministic simulation of the thread schedule: prange bodies of each kernel's own source run on virtual threads (baton-passing real threads, sys.monitoring INSTRUCTION pre-emption, seeded schedule) with an access-set race oracle and a single-thread reference; cross-checked on the compiled kernels under real thread counts",
-        text="For each of the 11 prange kernels, seeded schedules (1-4 virtual threads, static or chunked work split, bytecode-granular baton passes) execute the kernel's Python source; a run fails on any element written by two threads or written by one and read by another inside a parallel region, on any difference from the same source on one thread, or from a numpy definition. A second mode runs the compiled kernels under set_num_threads(1..16) x chunk sizes x repeats on both threading layers and demands bit-identical results.",
+        text="For each of the 11 prange kernels, seeded schedules (1-4 virtual threads, static or chunked work split, bytecode-granular baton passes) execute the kernel's Python source; a run fails on any element written by two threads or written by one and read by another inside a parallel region, on a floating-point array reduction fed by more than one thread (per-thread partial sums), on any difference from the same source on one thread, or from a numpy definition. A second mode runs the compiled kernels under set_num_threads(1..16) x chunk sizes x repeats on both threading layers and demands bit-identical results.",
         note="The simulated schedule decides on the kernels' Python source, not on numba's lowering; the compiled cross-check runs real code but its schedule is not controlled (its replay re-runs the cell up to 200 times). <= 4 virtual threads, shapes <= 8x12 in simulation, up to 64x4096 compiled.",
     ),
     "C20": dict(
         level="fault_enumeration", ref="DESIGN.md §4 C20",
         technique="deterministic simulation with enumerated crash points: golden run snapshots after every write, then one re-execution per write index (crash, torn write, ENOSPC) and per sampled read, plus every truncation length, survivors re-opened with FilReader",
-        text="Scenarios (writer, arguments, gulp, sub-range) are seeded; within a scenario every point between two consecutive writes is enumerated (crash after write k for all k; torn/ENOSPC at byte offsets of write k; crash at sampled input reads) and every byte-length truncation of every final output at or after the header is re-opened with the library's reader. Snapshot invariants: first write = exactly one complete header, append-only, complete at return.",
+        text="Scenarios (writer, arguments, gulp, sub-range) are seeded; within a scenario every point between two consecutive writes is enumerated (crash after write k for all k; torn/ENOSPC at byte offsets of write k; crash at sampled input reads; descriptor exhaustion - a real EMFILE after m more opens, m enumerated) and every byte-length truncation of every final output at or after the header is re-opened with the library's reader. Snapshot invariants: first write = exactly one complete header, append-only, complete at return.",
         note="Assumes process death, not power loss (the library never syncs). Torn/ENOSPC writes are emulated by truncating right after the real write, guarded by an append-only check on every call. to_dat/to_fft (PRESTO, header-less) are outside; a torn header write is outside the statement.",
     ),
 }
